@@ -83,8 +83,14 @@ def _mk(imr0, ten, mti, sti, main, handler):
 
 def _obs(emu):
     g = emu.cpu.regs.get
+    kil = fifo = 0
+    try:
+        m = emu.keyboard._matrix
+        kil, fifo = int(m.peek_kil()) & 0xFF, len(m.fifo_snapshot())
+    except Exception:  # noqa: BLE001
+        pass
     return (f"{g(R.PC)},{g(R.BA)},{g(R.I)},{g(R.S)},{g(R.F) & 3},{emu.memory.read_byte(IMEM + 0xFB) & 0xFF},{emu.memory.read_byte(IMEM + 0xFC) & 0xFF},"
-            f"{int(bool(emu._in_interrupt))},{int(emu.irq_counts.get('total', 0))},{int(bool(emu.cpu.state.halted))}")
+            f"{int(bool(emu._in_interrupt))},{int(emu.irq_counts.get('total', 0))},{int(bool(emu.cpu.state.halted))},{kil},{fifo}")
 
 
 def _digest(emu):
